@@ -14,6 +14,8 @@ use crate::tree::{self, Kind, Node, Snapshot, child_of, gen_content};
 
 const NAMES15: &[&str] = &[
     "a", "ab", "b", "x", "ax", "bx", "n", "d", "f", "a.txt", "b.txt", "c.log", "é", "éx", "日.txt", "A", "Z9", "0", "_u", "a b",
+    // what a patterns FILE would take for a comment; given as a pattern string it is a pattern
+    "#a#", "#x",
 ];
 
 fn gen_case_tree(rng: &mut Rng) -> Snapshot {
@@ -60,7 +62,7 @@ fn gen_patterns(rng: &mut Rng, snap: &Snapshot) -> Vec<String> {
             0 => (*rng.pick(&paths)).clone(),
             1 if !dirs_with_children.is_empty() => (*rng.pick(&dirs_with_children)).clone(),
             2 => rng.pick(&paths).rsplit('/').next().unwrap().to_string(),
-            3 => "*.txt".into(),
+            3 => (*rng.pick(&["*.txt", "*.txt", "#*#", "#*"])).into(),
             4 => "?x".into(),
             5 => {
                 // d/*/f from an existing deep path
